@@ -136,7 +136,15 @@ def decide(prop, tier='quick', seed=0, units=None, jobs=8, quiet=False):
                     samples.append(dict(obligation=c['id'], function=f['qual'], clause=c['text']))
         for fl in r.failures:
             if prop in fl.props:
-                violations.append((r, fl))
+                # a main-variant obligation listed as a known finding for this property (matched by obligation id, never by property alone)
+                hit = None
+                for k in known_ids.values():
+                    if k.get('obligation_match') and re.search(k['obligation_match'], fl.oid):
+                        hit = k
+                if hit is not None:
+                    known_hits.append((r, fl, hit))
+                else:
+                    violations.append((r, fl))
         main_oids = set(fl.oid for fl in r.failures)
         for fl in r.known_failures:
             if prop not in fl.props or fl.oid in main_oids:
